@@ -113,6 +113,18 @@ struct Empty
     "No fields."
 '''
 
+# defaulted timestamps (the generated Python module needs its own import for them).  The Swift and Objective-C
+# backends do not complete on such a field (known finding of C17), so this file joins the spec sets of the other rows only.
+SPEC_H = '''namespace stamps
+
+import common
+
+struct Stamp
+    "A defaulted timestamp."
+    at common.Date = "2015-05-12T15:50:38Z"
+    until common.Date = "2016-01-01T00:00:00Z"
+'''
+
 SPEC_C = '''namespace users
 
 annotation InternalOnly = Omitted("internal")
@@ -264,8 +276,10 @@ def whitelist_for(k=0):
     return WHITELIST_3 if k == 2 else None
 
 
-def spec_set(k=0):
+def spec_set(k=0, backend=None):
     specs = [('stone_cfg.stone', STONE_CFG), ('files.stone', SPEC_A), ('common.stone', SPEC_B), ('users.stone', SPEC_C)]
+    if backend is not None and not backend.startswith(('swift', 'obj_c')):
+        specs.append(('stamps.stone', SPEC_H))
     if k >= 1:
         specs.append(('routes_only.stone', SPEC_D))
         # sets and dicts on the way to the output: inherited omitted callers, several custom annotations of one
@@ -343,8 +357,9 @@ def manifest_vs_real(seed, tier):
     """C18: for every built-in backend row, a manifest run reports exactly the files a real run creates and creates none."""
     agg = {'judged': 0, 'violations': [], 'samples': [], 'skipped': {}, 'kinds': {}}
     for k in (0, 1):
-        specs = spec_set(k)
+        specs = None   # per row below (row-dependent spec files)
         for row in ROWS:
+            specs = spec_set(k, row[0])
             tmp = tempfile.mkdtemp(prefix='verif-man-')
             try:
                 real_dir, man_dir = os.path.join(tmp, 'real'), os.path.join(tmp, 'man')
